@@ -141,7 +141,7 @@ class CapturedKernel:
             accs = sorted(rhs.atoms(Access), key=lambda a: (a.field.name, tuple(int(o) for o in a.offsets)))
             dummies = [sp.Dummy(f"acc{i}") for i in range(len(accs))]
             e = rhs.xreplace(dict(zip(accs, dummies)))
-            f = sp.lambdify(dummies + list(self.scalars), e, modules="numpy")
+            f = lambdify_exact(dummies + list(self.scalars), e, modules="numpy")
             fns.append((lhs.field.name, [(a.field.name, tuple(int(o) for o in a.offsets)) for a in accs], f))
         self._fn = fns
 
@@ -180,6 +180,18 @@ class CapturedKernel:
             if np.ndim(val) != 0:
                 val = np.array(val, copy=True)  # rhs fully evaluated on the pre-state
             out[idx] = val
+
+
+def lambdify_exact(args, expr, modules="numpy"):
+    """sympy.lambdify prints Float constants with 15 significant digits, which does not round-trip;
+    pass every Float constant as an extra (closed-over) argument holding its exact binary64 value"""
+    floats = sorted(expr.atoms(sp.Float), key=lambda f: float(f))
+    if not floats:
+        return sp.lambdify(list(args), expr, modules=modules)
+    dummies = [sp.Dummy(f"const{i}") for i in range(len(floats))]
+    f = sp.lambdify(list(args) + dummies, expr.xreplace(dict(zip(floats, dummies))), modules=modules)
+    vals = [float(x) for x in floats]
+    return lambda *a: f(*a, *vals)
 
 
 def install():
